@@ -20,8 +20,8 @@ def main(tier, seed):
         rep.inconclusive.append("JIT cache warm-up failed")
     n = 16
     jobs = [Job("framework.props.shippedrun", "run_shipped", {"tier": tier, "chunk": c, "nchunks": n,
-                                                              "deadline_s": 200 if q else 2400},
-                mode="jit", timeout=500 if q else 3600, tag="shipped:%d" % c, stall_s=300 if q else 1500)
+                                                              "deadline_s": 600 if q else 2400},
+                mode="jit", timeout=1200 if q else 3600, tag="shipped:%d" % c, stall_s=600 if q else 1500)
             for c in range(n)]
     common.run_jobs(jobs)
     distinct = set()
